@@ -18,7 +18,7 @@ INFO = {
     'bounds': {'quick': {'signature_length': 'r in [32,72] (ECDSA issuer; the ideal model needs 32 bytes to bind the message; C01 covers [0,72] for the encoding), fixed for RSA / Ed25519 / HMAC / DigestSha256',
                          'public_key': '0..3 symbolic bytes; concrete lengths 32, 91, 150..260 step, 294',
                          'key_name': '1..3 components, 1 symbolic byte each', 'clock': '[0,2^64)',
-                         'dates': '6 concrete instants incl. year / leap boundaries (formatting is C code)'}},
+                         'dates': '6 concrete instants incl. leap / epoch boundaries + every instant pair within three days of the year boundaries 2020/21, 2024/25, 2026/27 (thorough: 2018..2033, 1999, 2099); formatting is C code'}},
     'outside': ['date arithmetic as a solver variable (strftime / timedelta are C code)', 'real DER'],
     'assumptions': ['ideal signature model; datetime.now() replaced by a chosen concrete instant'],
 }
@@ -26,6 +26,18 @@ MANDATORY = {'cert': ['cert-wellformed', 'cert-verifies']}
 
 DATES = [(1970, 1, 1, 0, 0, 0), (1999, 12, 31, 23, 59, 59), (2024, 2, 29, 12, 0, 0), (2038, 1, 19, 3, 14, 8),
          (2100, 3, 1, 0, 0, 0), (9999, 12, 31, 23, 59, 59)]
+
+
+def boundary_dates(tier):
+    """instants within three days of a year boundary (ISO week-year, leap years, century) - concrete: strftime is C code"""
+    years = (2020, 2024, 2026) if tier == 'quick' else tuple(range(2018, 2033)) + (1999, 2099)
+    out = []
+    for y in years:
+        for d in (29, 30, 31):
+            out.append((y, 12, d, 23, 59, 59))
+        for d in (1, 2, 3):
+            out.append((y + 1, 1, d, 0, 0, 0))
+    return out
 
 
 def fmt(d):
@@ -48,8 +60,11 @@ def h_cert(eng, case):
     else:
         pub = bytes((i * 7 + 1) & 0xFF for i in range(pk))
     mode = case['mode']
-    d0 = _dt.datetime(*DATES[case['d0']])
-    d1 = _dt.datetime(*DATES[case['d1']])
+    if case.get('dates'):
+        d0, d1 = _dt.datetime(*case['dates'][0]), _dt.datetime(*case['dates'][1])
+    else:
+        d0 = _dt.datetime(*DATES[case['d0']])
+        d1 = _dt.datetime(*DATES[case['d1']])
     try:
         if mode == 'derive_text':
             name, wire = sv.derive_cert(key_name, 'issuer1', pub, signer, d0, case['secs'])
@@ -182,4 +197,10 @@ def cases(tier, seed):
                 cs.append(('cert', dict(base, mode=mode, d0=d0, secs=secs, signer='ed25519'), {'weight': 2}))
         for d1 in range(len(DATES)):
             cs.append(('cert', dict(base, mode='new', d0=d0, d1=d1, signer='hmac'), {'weight': 2}))
+    # year boundaries: start and end instants on both sides
+    bd = boundary_dates(tier)
+    for i in range(0, len(bd) - 1):
+        cs.append(('cert', dict(base, mode='new', dates=[bd[i], bd[i + 1]], signer='hmac'), {'weight': 2}))
+        if i % 3 == 0:
+            cs.append(('cert', dict(base, mode='derive_comp', dates=[bd[i], bd[i]], secs=86400 * 2, signer='hmac'), {'weight': 2}))
     return cs
